@@ -131,6 +131,20 @@ def run(ctx):
                     ch = None
                 evs.append(("P", d))
                 ups.append(("P", ch))
+        if h % 5 == 3 and not malformed:
+            # an update, then something else writes one of its positions (a refresh), then an update with NO records: nothing of the earlier
+            # message may come back; then the same with an update about other positions
+            p0 = rng.choice(hot)
+            ch = [(p0, bytes([blk0[p0] ^ 0x5a, blk0[p0 + 1] ^ 0xa5])), ((p0 + 7) % (n - 2), b"\x11\x22")]
+            tail = [("P", ch), ("R", p0, bytes([blk0[p0] ^ 0x0f, blk0[p0 + 1] ^ 0xf0])), ("P", []), ("R", p0, bytes([blk0[p0] ^ 0x33])), ("P", [((p0 + 20) % (n - 2), b"\x01")]), ("P", [])]
+            for t in tail:
+                if t[0] == "P":
+                    evs.append(("P", statp(t[1])))
+                    ups.append(("P", t[1]))
+                else:
+                    evs.append(t)
+                    ups.append(t)
+            ctx.count("histories_with_an_empty_update_after_an_overwrite")
         for cls, fn in (("async", run_async), ("sync", run_sync)):
             try:
                 blks, acks = fn(blk0, evs)
